@@ -258,7 +258,14 @@ func init() {
 		pkg := fr.i.prog.ImportedPackage("github.com/pokt-network/pocket-core/codec")
 		t := pkg.Type("Codec").Object().Type()
 		cell := new(value)
-		*cell = zero(t)
+		z := zero(t).(structure)
+		st := t.Underlying().(*types.Struct)
+		for k := 0; k < st.NumFields(); k++ {
+			if st.Field(k).Name() == "upgradeOverride" {
+				z[k] = -1 // as the real constructor does: no override
+			}
+		}
+		*cell = z
 		return cell
 	})
 	regSimple("github.com/pokt-network/pocket-core/crypto.RegisterAmino", noop)
